@@ -433,6 +433,19 @@ def scope(ctx):
     return sorted(out)
 
 
+def _occurs_outside(value, a, t):
+    """term a occurs in value somewhere that is not inside the call term t"""
+    stack = [value]
+    while stack:
+        x = stack.pop()
+        if not isinstance(x, tuple) or not x or x == t:
+            continue
+        if x == a:
+            return True
+        stack.extend(e for e in x if isinstance(e, tuple))
+    return False
+
+
 def use_after_clobber(ctx, rule="RW"):
     """A package function that transforms one of its ARGUMENTS in place (not an output buffer it fills by subscript stores, but an input
     it rescales, sorts, cleans ... - e.g. least_squares scales the Jacobian unless copy_jacobian=True) leaves the caller with a
@@ -475,7 +488,7 @@ def use_after_clobber(ctx, rule="RW"):
                 private_new = qn.rsplit(".", 1)[1].startswith("_") and qn not in (known_functions() or {qn})
                 if isinstance(p.value, tuple) and not private_new:      # what a new private helper returns is judged where its callers use it
                     for a, c, how, t in dirty:
-                        if any(x == a for x in walk(p.value)):
+                        if _occurs_outside(p.value, a, t):          # the hand-over inside the call itself is not a later use
                             bad = bad or ("%s is returned after %s modified it in place (%s)" % (show(a)[:60], c.rsplit(".", 1)[1], how[:60]), p.line)
         ctx.check(rule, qn + "|no-use-after-in-place-modification", False if bad else True, "no value is used after a callee transformed it in place", fn=qn, nontrivial=False,
                   bad=bad[0] if bad else "", line=bad[1] if bad else None)
